@@ -25,6 +25,7 @@ var Exempt = map[string]string{
 	"lapack/gonum.Implementation.Dlaexc->Dlasy2":  "ok == false only says TL/TR were perturbed; Dlaexc applies its own weak-stability test to the result (the reference ignores IERR)",
 	"lapack/gonum.Implementation.Dlaqr23->Dtrexc": "the reference DLAQR3 ignores INFO of DTREXC: a failed swap leaves T in Schur form and deflation simply proceeds",
 	"lapack/gonum.Implementation.Dtrevc3->Dlaln2": "ok == false only signals that a near-singular 1x1/2x2 system was perturbed; scale and xnorm are honoured (the reference ignores IERR)",
+	"lapack/gonum.Implementation.Dgeev->Dtrevc3":  "called with EVAllMulQ: all n eigenvectors are computed, so the returned column count is n by construction",
 	"mat.Cholesky.ExtendVecSym->SolveVec":         "explicit `_ =`: a Condition error is advisory and the solution is still stored; positive definiteness of the extension is decided by the dot >= k test that follows",
 	"mat.Dense.Exp->Solve":                        "explicit `_ =`: Pade denominator after scaling; a Condition error is advisory and the result is still stored",
 }
@@ -83,6 +84,7 @@ func Run(cfg core.Config, scope core.Scope) *core.Result {
 	res := core.NewResult("OKFLOW")
 	res.Rules = append(res.Rules,
 		"OKFLOW.use: the ok/error/unconverged result of every non-query call to a LAPACK routine or mat factorization/solver reaches a branch, a field, a return or another call",
+		"OKFLOW.discard: no value-returning LAPACK routine is called as a bare statement with all results discarded",
 		"OKFLOW.cond: every error-returning Solve*/Inverse* method of mat can return Condition; a finite Condition(x) is returned exactly under x > ConditionTolerance; Condition(+Inf) only under a failed status")
 	res.Configs = append(res.Configs, cfg.String())
 	pkgs, err := core.Load(cfg, scope.Patterns...)
@@ -178,6 +180,28 @@ func checkUse(res *core.Result, pkg *packages.Package, fd *ast.FuncDecl, used ma
 		fn, _ := typeutil.Callee(info, c).(*types.Func)
 		st := statusResults(fn)
 		if len(st) == 0 {
+			// OKFLOW.discard: a LAPACK routine that returns values (a count
+			// of columns factorized, a norm, a scale) is never called as a
+			// bare statement.
+			if fn != nil && fn.Pkg() != nil && (strings.HasSuffix(fn.Pkg().Path(), "lapack/gonum") || strings.HasSuffix(fn.Pkg().Path(), "lapack/lapack64") || strings.HasSuffix(fn.Pkg().Path(), "gonum/lapack")) &&
+				fn.Type().(*types.Signature).Results().Len() > 0 && fn.Type().(*types.Signature).Recv() != nil && !isQuery(info, c, fn) {
+				res.Obligations++
+				res.Count("value_returning_lapack_calls", 1)
+				if _, bare := par[c].(*ast.ExprStmt); bare {
+					key := name + "->" + fn.Name()
+					if _, ok := Exempt[key]; ok {
+						used[key] = true
+						res.Count("status_drops_exempt_by_table", 1)
+					} else {
+						res.Add(core.Finding{
+							Rule: "OKFLOW.discard",
+							Key:  fmt.Sprintf("OKFLOW.discard|%s|%s", name, fn.Name()),
+							Pos:  core.Pos(c.Pos()), Func: name,
+							Msg:  fmt.Sprintf("every result of %s is discarded (call used as a statement): the value it reports (e.g. how much work was actually done) is lost", fn.Name()),
+						})
+					}
+				}
+			}
 			return true
 		}
 		if isQuery(info, c, fn) {
